@@ -191,7 +191,7 @@ package ro
 //@   ensures [second-call-is-noop|C03] atlock(done) ==> trace()
 //@   ensures [batch-taken-once|C03] !atlock(done) ==> len(atunlock(finalizers)) == 0
 //@   ensures [runs-whole-batch|C03,C14,C15] !atlock(done) && len(atlock(finalizers)) > 0 ==> trace(loop.L0)
-//@   ensures [finalizers-run-unlocked|C03,C06] notheldat(mu, call.execFinalizer) && notheldat(mu, loop.L0)
+//@   ensures [finalizers-run-unlocked|C03,C06] notheldat(mu, loop.L0)
 //@   ensures [panic-only-after-all-ran|C03] panics ==> called(loop.L0)
 
 //@ loop (*subscriptionImpl).Unsubscribe#0
